@@ -355,6 +355,65 @@ func resolvePhi(v ssa.Value, b *ssa.BasicBlock) ssa.Value {
 	return v
 }
 
+// returnTuples expands the results of a return through the phis that merge them (single-exit style): phis of the
+// same block are expanded together, edge by edge, so that each tuple is a combination the function can really return;
+// phis of different blocks are expanded independently (an over-approximation). At most limit tuples; nil if exceeded.
+func returnTuples(results []ssa.Value, limit int) [][]ssa.Value {
+	return returnTuplesBy(results, -1, limit)
+}
+
+// returnTuplesBy: as returnTuples, but only the phis of component `driver` (and the phis that share a block with
+// them) are expanded; the other components keep their own structure (a list accumulated in a loop stays a phi).
+func returnTuplesBy(results []ssa.Value, driver, limit int) [][]ssa.Value {
+	work := [][]ssa.Value{append([]ssa.Value(nil), results...)}
+	var out [][]ssa.Value
+	seen := map[string]bool{}
+	for len(work) > 0 {
+		t := work[len(work)-1]
+		work = work[:len(work)-1]
+		var blk *ssa.BasicBlock
+		for k, v := range t {
+			if driver >= 0 && k != driver {
+				continue
+			}
+			if p, ok := v.(*ssa.Phi); ok {
+				blk = p.Block()
+				break
+			}
+		}
+		if blk == nil {
+			out = append(out, t)
+			if len(out) > limit {
+				return nil
+			}
+			continue
+		}
+		key := ""
+		for _, v := range t {
+			key += fmt.Sprintf("%p,", v)
+		}
+		if seen[key] {
+			continue
+		}
+		seen[key] = true
+		for i := range blk.Preds {
+			nt := make([]ssa.Value, len(t))
+			for k, v := range t {
+				if p, ok := v.(*ssa.Phi); ok && p.Block() == blk {
+					nt[k] = p.Edges[i]
+				} else {
+					nt[k] = v
+				}
+			}
+			work = append(work, nt)
+		}
+		if len(seen) > 4*limit {
+			return nil
+		}
+	}
+	return out
+}
+
 func factsAtDirect(b *ssa.BasicBlock) []Fact {
 	var out []Fact
 	fn := b.Parent()
